@@ -36,7 +36,15 @@ def check(run):
     opts = {'mode': 'C02', 'kwonly': True, 'posonly': False, 'carriers': True, 'static': True}
     hs = [0, 1, 2, 3] if quick else [0, 1, 2, 3, 4, 5, 6, 7]
     res = ic.replay_records(run, recs, opts, hs, run.seed, 'c02')
-    res += ic.replay_records(run, recs[:400 if quick else 6000],
+    def two_opt(r):
+        cnt = {}
+        for p_ in r['P']:
+            if p_['d'] and p_['f'] in (r['EPF'], r['RNF']):
+                cnt[p_['f']] = cnt.get(p_['f'], 0) + 1
+        return any(v >= 2 for v in cnt.values())
+    gaprecs = [r for r in recs if two_opt(r)]
+    run.notes['posonly_gap_candidates'] = len(gaprecs)
+    res += ic.replay_records(run, (gaprecs[:300 if quick else 5000] * 3) + recs[:400 if quick else 6000],
                              {'mode': 'C02', 'kwonly': False, 'posonly': True, 'carriers': True, 'static': True},
                              hs, run.seed + 7, 'c02po')
 
@@ -47,11 +55,44 @@ def check(run):
                 srcs.add((k['src'][0], k['src'][2], k['src'][3]))
         return len(srcs) >= 2
     cov = ic.absorb(run, res, nontrivial)
+    leg_fresh_url_values(run)
     cov['static_wiring_checked'] = sum(1 for r in res if r.get('info', {}).get('static'))
     cov['hashseeds'] = hs
     run.notes['replay_coverage'] = cov
     for r in recs[:3]:
         run.sample({k: r[k] for k in ('n', 'nApp', 'P', 'V', 'url', 'res', 'rres', 'hasRender', 'calls')})
+
+
+def leg_fresh_url_values(run):
+    """the converted URL value a function receives belongs to THIS request: an endpoint that mutates the list it got
+    for a multi-segment binding must not influence what the next request receives (Pattern.tla: absent '*' -> [])"""
+    import json as _json
+    from clastic import Application, Response
+    from werkzeug.test import Client
+    from werkzeug.wrappers import BaseResponse
+
+    def ep_multi(xs):
+        seen = list(xs)
+        xs.append('LEFTOVER')
+        return Response(_json.dumps(seen))
+
+    def ep_multi_int(ns):
+        seen = list(ns)
+        ns.extend([99, 98])
+        return Response(_json.dumps(seen))
+    app = Application([('/m/<xs*>', ep_multi), ('/n/<ns*int>', ep_multi_int)])
+    cl = Client(app, BaseResponse)
+    seq = [('/m', []), ('/m', []), ('/m/a/b', ['a', 'b']), ('/m', []), ('/m/a/b', ['a', 'b']), ('/n', []), ('/n/1/2', [1, 2]),
+           ('/n', []), ('/n/1/2', [1, 2])]
+    for i, (path, want) in enumerate(seq):
+        got = _json.loads(cl.get(path).get_data(as_text=True))
+        run.evaluations += 1
+        if got != want:
+            run.violation('url-value-shared-across-requests', 'request %d %s: endpoint received %r, this request\'s URL gives %r'
+                          % (i, path, got, want), {'leg': 'L2', 'kind': 'fresh-url-values', 'sequence': seq[:i + 1], 'got': got})
+            return
+    run.traces += 1
+    run.nontrivial.add('fresh-url-values')
 
 
 def replay(run, path):
